@@ -814,7 +814,15 @@ func (r *reader) read(src []byte) {
 	}
 	r.pos++
 	if r.more {
-		r.carry = append(r.carry, src[r.tokenStart:r.pos]...)
+		// Keep the part of an unfinished token for the next block.
+		switch r.mode {
+		case tokenMode, charMode, intMode, bitVectorMode:
+			r.carry = append(r.carry, src[r.tokenStart:r.pos]...)
+		case stringMode, symbolMode:
+			if len(r.buf) == 0 {
+				r.buf = append(r.buf, src[r.tokenStart:r.pos]...)
+			}
+		}
 	} else {
 		switch r.mode {
 		case tokenMode:
@@ -950,17 +958,13 @@ func (r *reader) push(obj Object) {
 // Converts tokens to the correct type and then pushes that value onto the
 // stack.
 func (r *reader) pushToken(src []byte) {
-	size := r.pos - r.tokenStart
-	var (
-		obj   Object
-		token []byte
-	)
-	if size == 1 && (src[r.tokenStart] == 't' || src[r.tokenStart] == 'T') {
+	var obj Object
+	token := r.makeToken(src)
+	if len(token) == 1 && (token[0] == 't' || token[0] == 'T') {
 		obj = True
 		goto Push
 	}
-	token = r.makeToken(src)
-	if size == 3 && bytes.EqualFold([]byte("nil"), token) {
+	if len(token) == 3 && bytes.EqualFold([]byte("nil"), token) {
 		obj = nil
 		goto Push
 	}
@@ -1078,23 +1082,24 @@ const hexByteValues = "" +
 
 func (r *reader) pushChar(src []byte) {
 	var c Character
-	cnt := r.pos - r.tokenStart
+	token := r.makeToken(src)
+	cnt := len(token)
 	switch cnt {
 	case 0:
 		r.raise(`'#\' is not a valid character`)
 	case 1:
-		c = Character(src[r.tokenStart])
+		c = Character(token[0])
 	default:
 		var ok bool
-		if c, ok = runeMap[string(bytes.ToLower(src[r.tokenStart:r.pos]))]; ok {
+		if c, ok = runeMap[string(bytes.ToLower(token))]; ok {
 			break
 		}
-		if src[r.tokenStart] == 'u' || src[r.tokenStart] == 'U' {
+		if token[0] == 'u' || token[0] == 'U' {
 			if 7 < cnt {
 				break
 			}
 			var rn rune
-			for _, b := range src[r.tokenStart+1 : r.pos] {
+			for _, b := range token[1:] {
 				rn = rn<<4 + rune(hexByteValues[b])
 			}
 			if rn <= unicode.MaxRune {
@@ -1102,12 +1107,12 @@ func (r *reader) pushChar(src []byte) {
 			}
 			break
 		}
-		if rn, n := utf8.DecodeRune(src[r.tokenStart:r.pos]); 0 < n {
+		if rn, n := utf8.DecodeRune(token); 0 < n {
 			c = Character(rn)
 		}
 	}
 	if c == 0 {
-		r.raise(`'#\%s' is not a valid character`, src[r.tokenStart:r.pos])
+		r.raise(`'#\%s' is not a valid character`, token)
 	}
 	r.push(c)
 }
